@@ -322,8 +322,8 @@ def finish(prop, tier, seed, acc, t0, rule, bounds, exhaustive=True, assumptions
                 sys.stderr.write("HARNESS ERROR: replaying violation %s twice gave different results (%r vs %r): "
                                  "uncontrolled nondeterminism\n" % (k, k1, k2))
                 rc = 2
-            elif k in k1:
-                confirmed += 1
+            elif k in k1 or k.replace("(python -O)", "") in k1:
+                confirmed += 1       # (a violation seen in the -O child replays here in the ordinary interpreter only if it does not depend on -O)
             else:
                 sys.stderr.write("NOTE: violation %s was not reproduced by the stand-alone replay (got %r)\n" % (k, k1))
     rdir = os.path.join(VERIF, "replays", prop)
@@ -430,6 +430,7 @@ def istate(seq):
     with warnings.catch_warnings():
         if k in (6, 7):
             warnings.simplefilter("error")
+            warnings.filterwarnings("ignore", category=SyntaxWarning)   # compile-time warnings of a (re)import are not part of the call
         if k in (5, 7):
             np.seterr(all="raise")
         try:
